@@ -7,7 +7,9 @@ import fcntl
 import glob
 import hashlib
 import json
+import atexit
 import os
+import shutil
 import re
 import shutil
 import subprocess
@@ -18,10 +20,10 @@ from concurrent.futures import ThreadPoolExecutor
 VERIF = os.path.dirname(os.path.dirname(os.path.abspath(__file__)))
 REPO = os.environ.get("VERIF_REPO", "/repo")
 CACHE = os.path.join(VERIF, ".cache")
-LEAN_DIR = os.path.join(VERIF, "lean")
+LEAN_DIR = os.environ.get("VERIF_LEAN_DIR") or os.path.join(VERIF, "lean")
 HARNESS_DIR = os.path.join(VERIF, "harness")
-EVIDENCE_DIR = os.path.join(VERIF, "evidence")
-REPLAY_DIR = os.path.join(VERIF, "replays")
+EVIDENCE_DIR = os.environ.get("VERIF_EVIDENCE_DIR") or os.path.join(VERIF, "evidence")
+REPLAY_DIR = os.environ.get("VERIF_REPLAY_DIR") or os.path.join(VERIF, "replays")
 GUARD = "POMEROL_VERIF"
 NCPU = os.cpu_count() or 4
 
@@ -273,9 +275,24 @@ def lean_hygiene(paths=None):
     return hits
 
 
+_PRIVATE_DRIVER = None
+
+
 def lake_build(targets, timeout=3600):
+    """lake build under a lock; after building the driver, this process keeps a private copy of the binary so that
+    a concurrent check relinking it (different VERIF_REPO, edited model) cannot pull it away mid-run."""
+    global _PRIVATE_DRIVER
     with FileLock(os.path.join(CACHE, "locks", "lake.lock")):
         r = sh(["lake", "build"] + list(targets), cwd=LEAN_DIR, timeout=timeout)
+        built = os.path.join(LEAN_DIR, ".lake", "build", "bin", "pmdriver")
+        if "pmdriver" in targets and r.returncode == 0 and os.path.exists(built):
+            d = os.path.join(CACHE, "drivers")
+            os.makedirs(d, exist_ok=True)
+            priv = os.path.join(d, "pmdriver.%d" % os.getpid())
+            shutil.copy2(built, priv)
+            if _PRIVATE_DRIVER is None:
+                atexit.register(lambda: os.path.exists(priv) and os.remove(priv))
+            _PRIVATE_DRIVER = priv
     return r.returncode, r.stdout
 
 
@@ -315,6 +332,8 @@ def leanchecker(module, timeout=1800):
 
 
 def driver_path():
+    if _PRIVATE_DRIVER and os.path.exists(_PRIVATE_DRIVER):
+        return _PRIVATE_DRIVER
     return os.path.join(LEAN_DIR, ".lake", "build", "bin", "pmdriver")
 
 
